@@ -115,6 +115,17 @@ def indexNe (b : Bytes) (c : Byte) : Int :=
   | some i => (i : Int)
   | none => -1
 
+/-- `bytes.IndexFunc(b, func(r rune) bool { if r == c { count++ }; return count == n })` for an ASCII byte `c` and a
+captured counter: the index of the byte at which the running count of `c` (starting from `count`) equals `n`, or -1.
+(The predicate is true only where the count has just been raised or already stood at `n`, so evaluating it per byte or
+per rune gives the same index: a byte `c < 0x80` is always a rune of its own.) -/
+def indexCountFrom (c : Byte) (n : Int) : Bytes → Int → Int → Int
+  | [], _, _ => -1
+  | b :: r, cnt, pos =>
+    let cnt' := if b == c then cnt + 1 else cnt
+    if cnt' == n then pos else indexCountFrom c n r cnt' (pos + 1)
+def indexCount (b : Bytes) (c : Byte) (count n : Int) : Int := indexCountFrom c n b count 0
+
 /-- `bytes.IndexByte(b, c)` -/
 def indexByte (b : Bytes) (c : Byte) : Int :=
   match b.findIdx? (· == c) with
